@@ -29,6 +29,7 @@ on an empty peer map in shutdown() is not dischargeable and is reported as a kno
 creation - every spawn in the library is the manager task or goes onto one of the three JoinSets shutdown terminates.
 (8) no library type stores a handle to the bound UDP socket and the socket is never duplicated, so the endpoint's own socket is the only thing keeping the address bound.
 (7b) the connection handler awaits the shutdown of the set its request tasks run on before it returns (dropping a JoinSet does not wait).
+(2b) no arm of the manager loop's select! is switched off by a precondition (a disabled mailbox arm would not see shutdown).
 """
 TRUSTED = ["tokio: JoinSet::shutdown/abort semantics, yield_now returns Pending once, mpsc/oneshot close semantics", "quinn: Endpoint::close / wait_idle / rebind"]
 NOT_DECIDED = ["latency ('within the configured bound' — only the presence of the bound is decided)", "OS socket re-bindability", "remote peers observing the disconnect",
@@ -99,6 +100,9 @@ def run(cx):
         ob.floor(sites, 1, "select! in the manager loop", exact=True)
         site = sites[0]
         ob.require(len(site["arms"]) == 5, "loop/arms", f"select! arms: {site['polled']}", lb.path)
+        # no arm is switched off by a condition: while an arm is disabled the loop sees neither a shutdown request / closed
+        # mailbox, nor an incoming connection, nor a finished task - shutdown could be postponed for as long as the condition holds
+        check_no_select_preconditions(ob, prog, lb, "loop")
 
         def call_sym(c, o):
             if is_tracing(c):
